@@ -4,6 +4,7 @@ candidate re-run in a fresh interpreter, while the same violation kind on the sa
 persists.  Candidates of one round run in parallel; the first success in candidate order wins, so
 the result does not depend on completion order."""
 
+import time
 from concurrent.futures import ThreadPoolExecutor
 from typing import Any, Callable, Dict, List, Optional
 
@@ -22,9 +23,13 @@ def _first_ok(cands: List[Dict[str, Any]], pred: Callable[[Dict[str, Any]], bool
 def shrink(chk: Any, spec: Dict[str, Any], uid: int, kind: str, timeout: float, budget: int = 120) -> Dict[str, Any]:
     used = [0]
     workers = min(8, chk.runner.workers)
+    # wall-clock cap as well: when the violation makes an operation slow (an analysis that should
+    # have failed fast runs for minutes) every candidate is slow, and a smaller replay file is not
+    # worth an hour
+    deadline = time.time() + (300.0 if chk.tier == "quick" else 1500.0)
 
     def pred(cand: Dict[str, Any]) -> bool:
-        if used[0] >= budget:
+        if used[0] >= budget or time.time() > deadline:
             return False
         used[0] += 1
         return chk.still_fails(cand, uid, kind, timeout)
